@@ -77,6 +77,9 @@ func runBubble(d *sim.D) {
 	r := &rig{w: w, bn: &beaconStub{w: w}, ctx: ctx, idxCh: make(chan struct{})}
 	netCfg := networkconfig.NetworkConfig{Name: "dutysim", Beacon: w.net}
 	logger := zap.NewNop()
+	if os.Getenv("VERIF_DUTYLOG") != "" { // debugging aid: the scheduler's own debug log on stderr (not part of the event log)
+		logger, _ = zap.NewDevelopment()
+	}
 	sched := duties.NewScheduler(&duties.SchedulerOptions{
 		Ctx: ctx, BeaconNode: r.bn, ExecutionClient: elStub{}, Network: netCfg, ValidatorController: vcStub{w},
 		ExecuteDuty: w.executeDuty, IndicesChg: r.idxCh, DutyStore: dutystore.New(),
